@@ -297,8 +297,30 @@ def generate(repo, emit):
         ls += ["", f"end {ns}", ""]
         return "\n".join(ls)
 
+    pairs = [("ModulationHead", "ModulationHead"), ("ModulationSubseq", "ModulationSubseq"), ("FociSTMHead", "FociSTMHead"),
+             ("FociSTMSubseq", "FociSTMSubseq"), ("GainSTMHead", "GainSTMHead"), ("GainSTMSubseq", "GainSTMSubseq"), ("Gain", "Gain"),
+             ("SwapSegmentT", "GainUpdate"), ("SwapSegmentTWithTransition", "ModulationUpdate"),
+             ("SwapSegmentTWithTransition", "FociSTMUpdate"), ("SwapSegmentTWithTransition", "GainSTMUpdate"),
+             ("SilencerFixedCompletionSteps", "ConfigSilencer"), ("SilencerFixedUpdateRate", "ConfigSilencer"), ("Clear", "Clear"),
+             ("Sync", "Sync"), ("ForceFan", "ForceFan"), ("ReadsFPGAState", "ReadsFPGAState"), ("PhaseCorr", "PhaseCorr"), ("Pwe", "Pwe"),
+             ("DebugSetting", "DebugOutIdx"), ("EmulateGPIOIn", "GPIOIn"), ("CpuGPIOOut", "CpuGPIOOut"), ("FirmInfo", "FirmInfo")]
+    plines = ["namespace Autd3.Gen", "",
+              "/-- (driver struct, firmware struct, driver (offset,size) of named fields, firmware ditto, driver size, firmware size) -/",
+              "def headerPairs : List (String × String × List (Nat × Nat) × List (Nat × Nat) × Nat × Nat) := ["]
+    items = []
+    for dn, fn in pairs:
+        if dn not in drv_structs or fn not in fw_structs:
+            raise Unsupported(f"header struct pair {dn}/{fn} not found")
+        df, dt, _ = drv_structs[dn]
+        ff, ft, _ = fw_structs[fn]
+        l1 = ", ".join(f"({o}, {sz})" for f, o, sz in df if not f.startswith("__"))
+        l2 = ", ".join(f"({o}, {sz})" for f, o, sz in ff if not f.startswith("__"))
+        items.append(f'  ("{dn}", "{fn}", [{l1}], [{l2}], {dt}, {ft})')
+    plines.append(",\n".join(items) + "]")
+    plines += ["", "/-- every `TypeTag` discriminant of the driver -/",
+               "def allTags : List (String × Nat) := [" + ", ".join(f'("{n}", {v})' for n, v in tags) + "]", "", "end Autd3.Gen", ""]
     emit("Layout.lean", hdr.format("driver operation structs and firmware-emulator operation structs (C layout rules)") + "\n"
-         + layout_defs("Autd3.Gen.DrvLayout", drv_structs) + layout_defs("Autd3.Gen.FwLayout", fw_structs))
+         + layout_defs("Autd3.Gen.DrvLayout", drv_structs) + layout_defs("Autd3.Gen.FwLayout", fw_structs) + "\n".join(plines))
 
     # ---- dispatch -----------------------------------------------------------------------------
     em = strip_comments(read(repo, f"{emu}/cpu/emulator.rs"))
